@@ -2154,3 +2154,5 @@ PROP = Prop(
         "the environment is not mutated during an evaluator's lifetime",
     ],
 )
+
+PROP.level_note += ' Shared oracle stream wrapper-falsy-results (harness/falsy_results.py): the child of a wrapper is computed exactly once also when its value is None or falsy.'
